@@ -429,3 +429,37 @@ def m8(ctx):
     if n_getters < 3:
         raise AnalysisError("only %d store-backed getters that can raise KeyError found" % n_getters)
     return obs
+
+
+@rule("C15", "M10", floor=5, kind="N",
+      desc="what PROPFIND reads is what the last successful PROPPATCH stored: the tree store reads .xandikos through "
+           "the index and the object store, never from the working-tree file (same obligations as C04/B2) - the file is "
+           "written before the commit, so a failed PROPPATCH would become visible")
+def m10(ctx):
+    from .c04 import b2
+    return b2(ctx)
+
+
+@rule("C15", "M9", floor=5, kind="S",
+      desc="properties stay separate (writer side): a store-level setter of one property forwards to the metadata back "
+           "end's setter of that property and writes nothing else (the git-config back end keeps the description in "
+           ".git/description: a display-name setter that also writes it overwrites another property)")
+def m9(ctx):
+    obs = []
+    gs = ctx.P.cls("xandikos.store.git.GitStore")
+    n = 0
+    for nm, _f in sorted(gs.methods.items()):
+        if not nm.startswith("set_"):
+            continue
+        f = ctx.own_method(gs.qualname, nm)
+        cfg = ctx.cfg(f)
+        setters = [(x, c) for x in cfg.stmt_nodes() for c in x.calls() if isinstance(c.func, ast.Attribute)
+                   and (c.func.attr.startswith("set_") or c.func.attr in ("write", "write_to_path", "do_commit"))]
+        foreign = [src(c)[:60] for _x, c in setters if not (dotted(c.func) == "self.config." + nm)]
+        n += 1
+        obs.append(ctx.ob(bool(setters) and not foreign, f.qualname, f.where, "%s writes its own property only" % nm,
+                          "self.config.%s(...) and nothing else" % nm,
+                          "GitStore.%s also calls `%s`: setting one property changes the stored value of another" % (nm, foreign[0] if foreign else "nothing")))
+    if n < 5:
+        raise AnalysisError("only %d GitStore setters found" % n)
+    return obs
